@@ -82,6 +82,28 @@ def run(ck: Check):
         cs.obs(tr, "on_flow", max(abs(ys[-1, 0] - math.cos(tl - th0)), abs(ys[-1, ip] + math.sin(tl - th0))))
         if len(ck.cov["samples"]) < 16 and fwd == -1:
             ck.sample({"propagate_event_case": label, "times": ts.tolist(), "t_exact": -first_crossing(-1)})
+    # short spans on fine grids: "samples are returned exactly at the requested times" also when the grid spacing is tiny.  The
+    # implementation answers spans with |tf - t0| <= 1e-8 (np.isclose default) without integrating - a deliberate shortcut whose
+    # error is below 1e-8 |f|; the cases here stay above that threshold (and include the exact zero span)
+    for (method, order, hamlike), fwd, (tf, steps) in itertools.product(cases[:5], (1, -1), ((1e-5, 2001), (2e-5, 2000), (1e-7, 11), (0.0, 4))):
+        dim, ip = (6, 3) if hamlike else (2, 1)
+        y0 = np.zeros(dim)
+        y0[0], y0[ip] = math.cos(th0), math.sin(th0)
+        label = f"_propagate_dynsys|{method}{order}|{'ham' if hamlike else 'generic'}|forward={fwd}|short-span tf={tf:g} steps={steps}"
+        kw = dict(rtol=1e-12, atol=1e-12) if method == "adaptive" else {}
+        try:
+            sol = _propagate_dynsys(ham if hamlike else rot, y0.copy(), 0.0, tf, forward=fwd, steps=steps, method=method, order=order, **kw)
+        except Exception as ex:  # noqa
+            ck.notes.append(f"{label} raised {type(ex).__name__}: {str(ex)[:120]} (a rejection is allowed)")
+            continue
+        ts, ys = np.asarray(sol.times, dtype=float), np.asarray(sol.states, dtype=float)
+        tr = cs.trace(label, {"stamps_are_the_grid": -160, "samples_on_flow": -130},
+                      {"method": method, "order": order, "ham": hamlike, "forward": fwd, "part": "short-span"})
+        ck.count(("propagate-short-span", label), True)
+        grid = fwd * np.linspace(0.0, tf, steps)
+        cs.obs(tr, "stamps_are_the_grid", float(np.max(np.abs(ts - grid))) if ts.shape == grid.shape else 1.0)
+        ex = np.column_stack([np.cos(ts - th0), -np.sin(ts - th0)])
+        cs.obs(tr, "samples_on_flow", float(np.max(np.abs(ys[:, [0, ip]] - ex))) if len(ts) == len(ys) else 1.0)
     cs.decide(key_fn=lambda tr, n: f"_propagate_dynsys|{tr['data']['method']}|{'ham' if tr['data']['ham'] else 'generic'}|"
-                                   f"forward={tr['data']['forward']}|terminal-event|{n}")
+                                   f"forward={tr['data']['forward']}|{tr['data'].get('part', 'terminal-event')}|{n}")
     cs.selftest()
